@@ -166,7 +166,7 @@ theorem execSteps_fn_shape (P : Params) (t : Tree) (o : Opts) (w : World) (l : L
   cases hf : o.fails l with
   | true =>
     refine ⟨[⟨none, .bodyBefore, l⟩] ++ (match d.gens with | g :: _ => [Step.mk (some (.genWrite g 0)) .bodyWrote l] | [] => []) ++
-        [⟨none, .bodyAfter, l⟩, ⟨none, .recordFailure, l⟩], ⟨dd, .empty, true, info.runs⟩, ?_, ?_⟩
+        [⟨none, .bodyAfter, l⟩, ⟨none, .recordFailure, l⟩], ⟨dd, .empty, true, info.runs, none⟩, ?_, ?_⟩
     · intro st hst
       simp only [List.mem_append, List.mem_singleton, List.mem_cons, List.not_mem_nil, or_false] at hst
       rcases hst with (hst | hst) | hst | hst
@@ -183,7 +183,7 @@ theorem execSteps_fn_shape (P : Params) (t : Tree) (o : Opts) (w : World) (l : L
       cases d.gens <;> rfl
   | false =>
     refine ⟨[⟨none, .bodyBefore, l⟩] ++ ((bodyWrites P t w l d).map fun gc => Step.mk (some (.genWrite gc.1 gc.2)) .bodyWrote l) ++
-        [⟨none, .bodyAfter, l⟩, ⟨none, .recordSuccess, l⟩], ⟨dd, .env d.env, false, info.runs + 1⟩, ?_, ?_⟩
+        [⟨none, .bodyAfter, l⟩, ⟨none, .recordSuccess, l⟩], ⟨dd, .env d.env, false, info.runs + 1, some (attrsOf d)⟩, ?_, ?_⟩
     · intro st hst
       simp only [List.mem_append, List.mem_singleton, List.mem_cons, List.not_mem_nil, or_false, List.mem_map] at hst
       rcases hst with (hst | ⟨gc, hgc, hst⟩) | hst | hst
@@ -200,14 +200,14 @@ theorem execSteps_src_shape (P : Params) (t : Tree) (o : Opts) (w : World) (l : 
     (dd : List (Label × Stamp)) (hk : d.kind = .src) :
     ∃ r, (execSteps P t o w l d info dd).1 =
       [⟨none, .bodyBefore, l⟩, ⟨none, .bodyAfter, l⟩, ⟨none, .recordSuccess, l⟩] ++ saveSteps l r := by
-  exact ⟨⟨dd, srcData P (w.files d.path), false, info.runs⟩, by simp [execSteps, hk]⟩
+  exact ⟨⟨dd, srcData P (w.files d.path), false, info.runs, none⟩, by simp [execSteps, hk]⟩
 
 /-- every prefix of the effects of one visit leaves a state that satisfies the persisted invariant -/
 theorem visit_prefix_dinv {P : Params} {S : Shape} {t : Tree} {o : Opts} {s : BSt} {G : Ghost} {l : Label}
-    (hc : Conforms S t) (hinj : SumInj P) (hsr : P.stampRuns = true) (hmk : P.marker = true) (hdry : o.dry = false)
+    (hc : Conforms S t) (hinj : SumInj P) (hsr : P.stampRuns = true) (hlc : P.listCheck = true) (hmk : P.marker = true) (hdry : o.dry = false)
     (di : DInv P S s.w G) (mi : MInv P S t s G) (ord : Order t s l) (hret : ∀ x, G.retired x → t.defs x = none) (j : Nat) :
     ∃ G', DInv P S (applySteps s.w ((visitSteps P t o s l).take j)) G' ∧ G'.retired = G.retired := by
-  obtain ⟨Gv, div, _, hrv⟩ := visit_inv hc hinj hsr hdry di mi ord hret
+  obtain ⟨Gv, div, _, hrv⟩ := visit_inv hc hinj hsr hlc hdry di mi ord hret
   have hfull := (visit_steps P t o s l).2
   unfold visitSteps at *
   cases hd : t.defs l with
@@ -276,7 +276,7 @@ end Dawn.Build
 namespace Dawn.Build
 
 theorem build_prefix_dinv {P : Params} {S : Shape} {t : Tree} {o : Opts}
-    (hc : Conforms S t) (hinj : SumInj P) (hsr : P.stampRuns = true) (hmk : P.marker = true) (hdry : o.dry = false) :
+    (hc : Conforms S t) (hinj : SumInj P) (hsr : P.stampRuns = true) (hlc : P.listCheck = true) (hmk : P.marker = true) (hdry : o.dry = false) :
     ∀ (ord : List Label) (s : BSt) (G : Ghost), DInv P S s.w G → MInv P S t s G → Ordered P t o s ord →
       (∀ x, G.retired x → t.defs x = none) →
       ∀ k, ∃ G', DInv P S (applySteps s.w ((buildSteps P t o s ord).take k)) G' ∧ G'.retired = G.retired := by
@@ -288,20 +288,20 @@ theorem build_prefix_dinv {P : Params} {S : Shape} {t : Tree} {o : Opts}
     simp only [buildSteps]
     rcases take_append_cases (visitSteps P t o s l) (buildSteps P t o (visit P t o s l) rest) k with h | ⟨i, h⟩
     · rw [h]
-      exact visit_prefix_dinv hc hinj hsr hmk hdry di mi ho.1 hret k
+      exact visit_prefix_dinv hc hinj hsr hlc hmk hdry di mi ho.1 hret k
     · rw [h, applySteps_append, ← (visit_steps P t o s l).2]
-      obtain ⟨G1, di1, mi1, hr1⟩ := visit_inv hc hinj hsr hdry di mi ho.1 hret
+      obtain ⟨G1, di1, mi1, hr1⟩ := visit_inv hc hinj hsr hlc hdry di mi ho.1 hret
       obtain ⟨G2, di2, hr2⟩ := ih _ G1 di1 mi1 ho.2 (by rw [hr1]; exact hret) i
       exact ⟨G2, di2, by rw [hr2, hr1]⟩
 
 /-- C03: whatever hook point a build dies at, the persisted state satisfies the invariant -/
 theorem crash_dinv {P : Params} {S : Shape} {t : Tree} {o : Opts}
-    (hc : Conforms S t) (hinj : SumInj P) (hsr : P.stampRuns = true) (hmk : P.marker = true) (hdry : o.dry = false)
+    (hc : Conforms S t) (hinj : SumInj P) (hsr : P.stampRuns = true) (hlc : P.listCheck = true) (hmk : P.marker = true) (hdry : o.dry = false)
     (ord : List Label) (w : World) (G : Ghost) (di : DInv P S w G) (ho : Ordered P t o (BSt.init (load t w)) ord)
     (hret : ∀ x, G.retired x → t.defs x = none) (k : Nat) :
     ∃ G', DInv P S (crashBuild P t o ord k w) G' ∧ G'.retired = G.retired := by
   rw [crashBuild_eq]
-  exact build_prefix_dinv hc hinj hsr hmk hdry ord (BSt.init (load t w)) G (dinv_load t di) (minv_init t _ G) ho hret k
+  exact build_prefix_dinv hc hinj hsr hlc hmk hdry ord (BSt.init (load t w)) G (dinv_load t di) (minv_init t _ G) ho hret k
 
 /-- the load-time refresh and index rewrite, cut anywhere, keep the invariant too -/
 theorem crashLoad_dinv {P : Params} {S : Shape} (t : Tree) (w : World) (G : Ghost) (di : DInv P S w G) (k : Nat) :
